@@ -198,4 +198,25 @@ func init() {
 		`d.SeekAbs(searchStart + int64(eocdIndex)*8)`, `d.SeekAbs(searchStart + int64(eocdIndex))`, `eocd-search|seek`)
 	c("C15.find.zip-eocd-range-start", "C15.find", "format/zip/zip.go",
 		`searchStart := d.Len() - searchBytes*8`, `searchStart := d.Len() - searchBytes`, `eocd-search|window`)
+	// ---- C15.inarg
+	c("C15.inarg.default-else-if", "C15.inarg", "pkg/decode/decode.go",
+		"\t\t\tinArgs = append(inArgs, opts.InArg)\n\t\t}\n\t\tif !hasFormatOpts && f.DefaultInArg != nil {", "\t\t\tinArgs = append(inArgs, opts.InArg)\n\t\t} else if !hasFormatOpts && f.DefaultInArg != nil {", `decode|inargs|default`)
+	c("C15.inarg.default-with-format-opts", "C15.inarg", "pkg/decode/decode.go",
+		`if !hasFormatOpts && f.DefaultInArg != nil {`, `if f.DefaultInArg != nil {`, `decode|inargs|default`)
+	c("C15.inarg.inarg-dropped", "C15.inarg", "pkg/decode/decode.go",
+		"\t\tif opts.InArg != nil {\n\t\t\tinArgs = append(inArgs, opts.InArg)", "\t\tif opts.InArg != nil && !hasFormatOpts {\n\t\t\tinArgs = append(inArgs, opts.InArg)", `decode|inargs|in`)
+	c("C15.inarg.format-appends-default", "C15.inarg", "pkg/decode/decode.go",
+		`inArgs = append(inArgs, formatArg)`, `inArgs = append(inArgs, f.DefaultInArg)`, `decode|inargs|format`)
+	c("C15.inarg.group-negated", "C15.inarg", "pkg/decode/decode.go",
+		"\t\tif hasGroupOpts {\n\t\t\tinArgs = append(inArgs, groupArg)", "\t\tif !hasGroupOpts {\n\t\t\tinArgs = append(inArgs, groupArg)", `decode|inargs|group`)
+	c("C15.inarg.order", "C15.inarg", "pkg/decode/decode.go",
+		"\t\tif hasFormatOpts {\n\t\t\tinArgs = append(inArgs, formatArg)\n\t\t}\n\t\tif opts.InArg != nil {\n\t\t\tinArgs = append(inArgs, opts.InArg)\n\t\t}\n", "\t\tif opts.InArg != nil {\n\t\t\tinArgs = append(inArgs, opts.InArg)\n\t\t}\n\t\tif hasFormatOpts {\n\t\t\tinArgs = append(inArgs, formatArg)\n\t\t}\n", `decode|inargs|order`)
+	c("C15.inarg.carried-over", "C15.inarg", "pkg/decode/decode.go",
+		"\tfor _, f := range group.Formats {\n\t\tvar inArgs []any\n", "\tvar inArgs []any\n\tfor _, f := range group.Formats {\n", `decode|inargs|fresh`)
+	c("C15.inarg.argas-result", "C15.inarg", "pkg/decode/decode.go",
+		"targetVal.Elem().Set(reflect.ValueOf(in))\n\t\t\treturn true", "targetVal.Elem().Set(reflect.ValueOf(in))\n\t\t\treturn false", `ArgAs|first-wins`)
+	c("C15.inarg.argas-copies-target", "C15.inarg", "pkg/decode/decode.go",
+		`targetVal.Elem().Set(reflect.ValueOf(in))`, `targetVal.Elem().Set(reflect.ValueOf(target).Elem())`, `ArgAs|copies-element`)
+	c("C15.inarg.zip-default-uncompress", "C15.inarg", "format/zip/zip.go",
+		`Uncompress: true,`, `Uncompress: false,`, `DefaultInArg.Uncompress`)
 }
